@@ -24,8 +24,13 @@ type stopScan struct {
 
 func runC17(r *ev.Run) {
 	r.Rule = "every table and index b-tree shape image within bounds x every stoppable scan {SelectDone, driver result set closed after k rows, Table.Scan, Index.Scan, ScanMin/ScanEq/ScanRange with several keys} x every stop position k=1..result size: exactly the first k rows of the unstopped result, callback invoked exactly k times, nil error, pager lock released (lock/unlock balance of the in-memory pager); non-trivial = stop positions on multi-level trees"
-	b := quickBounds(r)
-	r.Set("bounds", fmt.Sprintf("%+v", b))
+	r.Set("bounds", fmt.Sprintf("%+v", allBounds(r)))
+	for _, b := range allBounds(r) {
+		c17Shapes(r, b)
+	}
+}
+
+func c17Shapes(r *ev.Run, b shapeBounds) {
 	forTableShapes(r, b, func(si *ShapeImage) {
 		scans := []stopScan{
 			{"SelectDone(t1)", true, func(h *sqlittle.DB, d *sdb.Database, cb func([]interface{}) bool) error {
